@@ -369,20 +369,20 @@ def eval_call_failure(ctx, err_text="sbatch: error: Batch job submission failed"
         for err in (False, True):
             stderr = err_text if err else ok_text
             proc = Obj("proc", returncode=rc)
-            def h_run(cmd, *a, rc=rc, stderr=stderr, **k):
+            def h_run(cmd, *a, _rc=rc, _stderr=stderr, **k):
                 # subprocess.run / check_output / check_call as documented: check=True (or the check_* variants) raise CalledProcessError on a non-zero status
-                if k.get("check") and rc != 0:
-                    raise Raised("CalledProcessError", f"Command {cmd!r} returned non-zero exit status {rc}.")
-                return Obj("completed", returncode=rc, stdout=tok("STDOUT"), stderr=stderr, args=cmd)
+                if k.get("check") and _rc != 0:
+                    raise Raised("CalledProcessError", f"Command {cmd!r} returned non-zero exit status {_rc}.")
+                return Obj("completed", returncode=_rc, stdout=tok("STDOUT"), stderr=_stderr, args=cmd)
 
-            def h_check_output(cmd, *a, rc=rc, **k):
-                if rc != 0:
-                    raise Raised("CalledProcessError", f"Command {cmd!r} returned non-zero exit status {rc}.")
+            def h_check_output(cmd, *a, _rc=rc, **k):
+                if _rc != 0:
+                    raise Raised("CalledProcessError", f"Command {cmd!r} returned non-zero exit status {_rc}.")
                 return tok("STDOUT")
             hooks = {"shutil.which": lambda name: "/usr/bin/" + str(name), "subprocess.Popen": lambda *a, **k: proc,
                      "attr:communicate": lambda recv, *a, **k: (tok("STDOUT"), stderr), "subprocess.run": h_run, "subprocess.check_output": h_check_output,
-                     "attr:check_returncode": lambda recv, rc=rc: (_ for _ in ()).throw(Raised("CalledProcessError", "non-zero exit status")) if rc != 0 else None,
-                     "attr:wait": lambda recv, *a, **k: rc, "attr:poll": lambda recv: rc}
+                     "attr:check_returncode": lambda recv, _rc=rc: (_ for _ in ()).throw(Raised("CalledProcessError", "non-zero exit status")) if _rc != 0 else None,
+                     "attr:wait": lambda recv, *a, _rc=rc, **k: _rc, "attr:poll": lambda recv, _rc=rc: _rc}
             interp = PureInterp(ctx, hooks=hooks)
             try:
                 out[(rc != 0, err)] = interp.call(fn, ("sbatch", "--parsable"), {"input": tok("SCRIPT")})
